@@ -294,9 +294,16 @@ class Rig:
         rig = self
         pending = []
 
+        created = []
+
         class SPeerThread(p2p.PeerThread):
+            def __init__(self, *a, **kw):
+                super().__init__(*a, **kw)
+                created.append(self)
+                self._rig_tid = len(created)      # connect_peer numbers peers by arrival; the rig connects them in order
+
             def run(self):
-                tid = self._args[0] + 1
+                tid = self._rig_tid
                 sched.tls.tid = tid
                 try:
                     super().run()
@@ -577,7 +584,7 @@ def _stage_c(ctx):
     _binding_selftest(ctx, recs)
     ctx.sample({"stage": "C", "script": recs[len(recs) // 2]["script"], "schedule": recs[len(recs) // 2]["schedule"],
                 "events": [e["op"] + str(e.get("p")) for e in recs[len(recs) // 2]["ev"]]})
-    _stage_c_connect(ctx)
+    ctx.run_extension("connect_peer handshake", _stage_c_connect, ctx)
     # three peers x one message each: every interleaving (1680 per script with 3 scheduling points per thread)
     ks3 = ["ping", "inv", "version", "unknown"] if ctx.tier == "quick" else KINDS
     scripts3 = [mk_script({1: [a], 2: [b], 3: [c]}) for a in ks3 for b in ks3 for c in ks3]
@@ -664,7 +671,7 @@ def run(ctx):
     _stage_c(ctx)
     # extension beyond the listed property (never a VIOLATION): the node's life cycle, spec/NodeLife.tla
     from . import ext_life
-    ext_life.stage(ctx)
+    ctx.run_extension("NodeLife", ext_life.stage, ctx)
 
 
 def replay(ctx, path):
